@@ -110,7 +110,7 @@ func main() {
 
 type Finding struct {
 	Property string `json:"property"`
-	Sig      string `json:"sig"`   // exact signature, or a prefix when it ends with '*'
+	Sig      string `json:"sig"` // exact signature, or a prefix when it ends with '*'
 	What     string `json:"what"`
 	Status   string `json:"status"` // open | fixed
 	Commit   string `json:"commit,omitempty"`
